@@ -239,7 +239,7 @@ PROPS["C03"] = {
         K("gate: session_crypto", "c03_gate_session_crypto", "quick", "proof", ["DtlsInner::try_decrypt_record"],
           "same with the cached-cipher path decrypt_record_with_cipher", module=DM),
         K("make_aad layout", "c03_make_aad_spec", "quick", "proof", ["make_aad"],
-          "aad == seq(8) || type || major || minor || len(2) for every input with len <= 65535", module=DM),
+          "in-place kani::requires(len <= 65535) + kani::ensures: aad == seq(8) || type || major || minor || len(2)", module=DM),
         K("decrypt_record_with_cipher layout (28 B)", "c03_decrypt_with_cipher_28", "quick", "bounded", ["decrypt_record_with_cipher", "make_aad"],
           "Ok(p) iff AEAD opens with nonce = iv||payload[0..8], AAD = make_aad(seq,type,version,|ct|), tag = last 16; p == plaintext",
           bound="payload = 28 bytes (8 nonce + 4 ct + 16 tag), symbolic iv/seq/content; aes-gcm substitute", module=DM, timeout=600),
@@ -404,6 +404,8 @@ PROPS["C16"] = {
         K("priority ordering", "c16_priority_ordering", "quick", "proof", ["IceCandidate::priority_for"], "host > prflx > srflx > relay > 0; lower component id wins", module=IM),
         K("priority_for_tcp (RFC 6544 4.1)", "c16_priority_for_tcp_spec", "quick", "proof", ["IceCandidate::priority_for_tcp"],
           "same formula with local preference passive > active > so; never above the UDP priority", module=IM),
+        K("pair priority contract (RFC 8445 6.1.2.3)", "c16_pair_priority_contract", "quick", "proof", ["IceCandidatePair::priority"],
+          "in-place kani::requires(local.priority <= 0x7EFFFFFF) + kani::ensures: == 2^32*min(G,D) + 2*max(G,D) + (G>D) computed in u128 (no u64 overflow) for ANY remote priority and both roles", module=IM),
         K("pair priority formula, no overflow, symmetry", "c16_pair_priority_formula_and_symmetry", "quick", "proof", ["IceCandidatePair::priority"],
           "== 2^32*min + 2*max + (G>D) in u128 without u64 overflow for ANY remote priority given local <= 0x7EFFFFFF; pair(a,b).priority(Controlling) == pair(b,a).priority(Controlled)", module=IM),
         K("pair ordering agreement", "c16_pair_priority_order_agreement", "quick", "proof", ["IceCandidatePair::priority"],
@@ -504,9 +506,11 @@ PROPS["C01"] = {
                      "assumed: an SSN below next_ssn is never enqueued (TSN de-duplication upstream, async code, not verified)"],
     "kani": [
         K("tsn_gt == RFC 1982 serial comparison", "c01_tsn_gt_serial_spec", "quick", "proof", ["tsn_gt"],
-          "a > b <=> 0 < (a-b) mod 2^32 < 2^31 for every pair; irreflexive, asymmetric, successor is greater", module=SCM),
+          "in-place kani::ensures: a > b <=> 0 < (a-b) mod 2^32 < 2^31 for every pair", module=SCM),
         K("ssn_gt == RFC 1982 serial comparison", "c01_ssn_gt_serial_spec", "quick", "proof", ["ssn_gt"],
-          "a > b <=> 0 < (a-b) mod 2^16 < 2^15 for every pair", module=SCM),
+          "in-place kani::ensures: a > b <=> 0 < (a-b) mod 2^16 < 2^15 for every pair", module=SCM),
+        K("serial order laws", "c01_serial_order_laws", "quick", "proof", ["tsn_gt", "ssn_gt"],
+          "irreflexive, asymmetric, successor is greater — for every pair, both widths", module=SCM),
         K("canary: ssn_gt is plain >", "canary_ssn_gt_is_plain_greater", "quick", "canary", ["ssn_gt"], "false claim, must FAIL", expect="fail", module=SCM),
     ],
     "verus": [
